@@ -445,6 +445,17 @@ def opPoolDFile (j : Json) : R Json := do
     | _ => throw "bad pool file"
   return Json.arr (fs.map fun pf => encDFile (Index.poolDFile pf)).toArray
 
+/-- {"present":[comp...], "kept":[comp...] | null} -> the variant `_unpack_index` reads (after the skel clean if kept is given) -/
+def opUnpackChoice (j : Json) : R Json := do
+  let pres ← (← fArr j "present").mapM fun x => do decComp (← x.getStr?)
+  let present : Comp → Bool := fun c => pres.contains c
+  let sel := match fOpt j "kept" with
+    | some k => match (k.getArr?.toOption.getD #[]).toList.mapM (fun x => do decComp (← x.getStr?)) with
+      | .ok ks => Unpack.choice (Unpack.afterSkelClean present (fun c => ks.contains c))
+      | .error _ => none
+    | none => Unpack.choice present
+  return match sel with | some c => Json.str (encComp c) | none => Json.null
+
 /-- L2 whole-run model.
     {"tree":[[path,size,tag]...], "meta":[[path,size,tag]...], "pool":[[path,size,tag,[chunk...]]...], "skip":[path...],
      "crash": k | null}  ->  transfers / removals / final pool listing (after the run, or after crash at k followed by a run) -/
@@ -512,6 +523,7 @@ def dispatch (j : Json) : R Json := do
   | "proxy_userinfo" => opProxyUserinfo j
   | "mirror_run" => opMirrorRun j
   | "pool_dfile" => opPoolDFile j
+  | "unpack_choice" => opUnpackChoice j
   | _ => throw s!"unknown op {op}"
 
 partial def loop (h : IO.FS.Stream) (out : IO.FS.Stream) : IO Unit := do
